@@ -17,6 +17,9 @@ import Geodesy.Model.Registry
 import Geodesy.Lemmas.Real
 import Mathlib.Tactic.Linarith
 import Mathlib.Tactic.FieldSimp
+import Geodesy.Lemmas.Sexagesimal
+import Mathlib.Analysis.SpecialFunctions.Complex.Arg
+import Mathlib.Analysis.SpecialFunctions.Trigonometric.Arctan
 
 namespace Geodesy
 namespace C01
@@ -135,6 +138,84 @@ theorem inv_modifier {α : Type} (sem : LeafSem α) (nan : α) (actionOf : Actio
 example : runSteps [((· + 1), (· - 1)), ((· * 2), (· / 2))] (3 : ℚ) = 8 ∧
     unrunSteps [((· + 1), (· - 1)), ((· * 2), (· / 2))] (8 : ℚ) = 3 := by
   constructor <;> norm_num [runSteps, unrunSteps]
+
+/-! ### closed-form auxiliary latitudes, the permanent tide, the ISO-6709 operators -/
+
+/-- `atan2(y, x) = atan(y / x)` for a positive `x` -/
+theorem atan2_of_pos (x y : ℝ) (hx : 0 < x) : (Scalar.atan2 y x : ℝ) = Real.arctan (y / x) := by
+  show Complex.arg ⟨x, y⟩ = _
+  have hlt : |Complex.arg ⟨x, y⟩| < Real.pi / 2 := Complex.abs_arg_lt_pi_div_two_iff.mpr (Or.inl hx)
+  have h := abs_lt.mp hlt
+  rw [← Real.arctan_tan h.1 h.2, Complex.tan_arg]
+
+/-- **latitude geocentric: inverse undoes forward** for every ellipsoid with `e² ≠ 1` and every latitude
+strictly between the poles -/
+theorem latitude_geocentric_roundtrip (el : Ellipsoid ℝ) (phi : ℝ) (hes : el.eccentricitySquared ≠ 1)
+    (h1 : -(Real.pi / 2) < phi) (h2 : phi < Real.pi / 2) :
+    el.latitudeGeocentricToGeographic (el.latitudeGeographicToGeocentric phi) = phi := by
+  have one : (@OfScientific.ofScientific ℝ Scalar.instOfScientific 10 true 1) = 1 := by
+    simp [OfScientific.ofScientific, Scalar.ofSci, Lit.toReal]
+  have two : (@OfScientific.ofScientific ℝ Scalar.instOfScientific 20 true 1) = 2 := by
+    simp [OfScientific.ofScientific, Scalar.ofSci, Lit.toReal]; norm_num
+  have hne : (1 - el.f * (2 - el.f)) ≠ 0 := by
+    intro h; apply hes
+    simp only [Ellipsoid.eccentricitySquared, two]; linarith
+  simp only [Ellipsoid.latitudeGeocentricToGeographic, Ellipsoid.latitudeGeographicToGeocentric,
+    Ellipsoid.eccentricitySquared, one, two, scalar_atan, scalar_tan, Real.tan_arctan]
+  rw [mul_div_assoc, mul_comm, div_mul_cancel₀ _ hne]  
+  exact Real.arctan_tan h1 h2
+
+/-- **latitude reduced (parametric): inverse undoes forward** for every flattening below one -/
+theorem latitude_reduced_roundtrip (el : Ellipsoid ℝ) (phi : ℝ) (hf : el.f < 1)
+    (h1 : -(Real.pi / 2) < phi) (h2 : phi < Real.pi / 2) :
+    el.latitudeReducedToGeographic (el.latitudeGeographicToReduced phi) = phi := by
+  have one : (@OfScientific.ofScientific ℝ Scalar.instOfScientific 10 true 1) = 1 := by
+    simp [OfScientific.ofScientific, Scalar.ofSci, Lit.toReal]
+  have hpos : 0 < 1 - el.f := by linarith
+  simp only [Ellipsoid.latitudeReducedToGeographic, Ellipsoid.latitudeGeographicToReduced, one]
+  have hpos' : 0 < 1 / (1 - el.f) := by positivity
+  rw [atan2_of_pos _ _ hpos, atan2_of_pos _ _ hpos', scalar_tan, scalar_tan, Real.tan_arctan]
+  have : Real.tan phi / (1 / (1 - el.f)) / (1 - el.f) = Real.tan phi := by field_simp
+  rw [this]
+  exact Real.arctan_tan h1 h2
+
+/-- **permtide: inverse undoes forward, and forward undoes inverse**, for every system pair, every
+ellipsoid and every tuple (the correction depends on the latitude only, which it leaves alone) -/
+theorem permtide_roundtrip (p : Parsed ℝ) (data : List (Coor ℝ)) :
+    (Permtide.sem p .inv (Permtide.sem p .fwd data).1).1 = data ∧
+    (Permtide.sem p .fwd (Permtide.sem p .inv data).1).1 = data := by
+  unfold Permtide.sem
+  cases p.real? (S "coefficient") with
+  | none => exact ⟨rfl, rfl⟩
+  | some k =>
+    constructor <;>
+    · simp only [List.map_map]
+      conv => rhs; rw [← List.map_id data]
+      apply List.map_congr_left
+      intro c _
+      cases c
+      simp [Permtide.delta]
+
+/-- **dm, dms: forward undoes inverse** for every position (longitude, latitude in radians, of
+magnitude below 4·10⁷ resp. 4·10⁵ degrees): encoding as DDDMM.mmm / DDDMMSS.sss and decoding
+returns the position, height and time untouched -/
+theorem dm_roundtrip (o : Coor ℝ) (h0 : |o.c0 * (180 / Real.pi)| < 42949672) (h1 : |o.c1 * (180 / Real.pi)| < 42949672) :
+    Iso6709.dmFwd (Iso6709.dmInv o) = o := by
+  cases o with
+  | mk a b c d =>
+    have hp := Real.pi_ne_zero
+    simp only [Iso6709.dmFwd, Iso6709.dmInv, Iso6709.isoDm, Iso6709.geo, scalar_toDegrees, scalar_toRadians,
+      Sexagesimal.iso_dm_roundtrip _ h0, Sexagesimal.iso_dm_roundtrip _ h1]
+    congr 1 <;> field_simp
+
+theorem dms_roundtrip (o : Coor ℝ) (h0 : |o.c0 * (180 / Real.pi)| < 429496) (h1 : |o.c1 * (180 / Real.pi)| < 429496) :
+    Iso6709.dmsFwd (Iso6709.dmsInv o) = o := by
+  cases o with
+  | mk a b c d =>
+    have hp := Real.pi_ne_zero
+    simp only [Iso6709.dmsFwd, Iso6709.dmsInv, Iso6709.isoDms, Iso6709.geo, scalar_toDegrees, scalar_toRadians,
+      Sexagesimal.iso_dms_roundtrip _ h0, Sexagesimal.iso_dms_roundtrip _ h1]
+    congr 1 <;> field_simp
 
 end C01
 end Geodesy
